@@ -324,6 +324,19 @@ func runRoute(t *testing.T, c spec.Case, e Em) {
 			dial()
 			return
 		}
+		if it.ReuseAfterMs > 0 && p.Kind == "mux" {
+			t0 := time.Now()
+			var w sync.WaitGroup
+			var e1, e2 error
+			w.Add(2)
+			go func() { defer w.Done(); _, e1 = vp.MuxAccept(am, id, vp.RandID(), 10) }()
+			go func() { defer w.Done(); _, e2 = vp.MuxDial(dm, id, vp.RandID(), 10) }()
+			w.Wait()
+			if e1 != nil || e2 != nil {
+				e.Note("reuse-first-pair-failed", fmt.Sprintf("id %d: accept err=%v dial err=%v", id, e1, e2))
+			}
+			time.Sleep(time.Until(t0.Add(time.Duration(it.ReuseAfterMs) * time.Millisecond)))
+		}
 		if it.LineUp && p.Kind == "mux" {
 			flag := &atomic.Bool{}
 			lineUpFlags.Store(id, flag)
